@@ -52,3 +52,8 @@ Definition strop_sel_pipeline (k : nat) (l : lang) : str -> str -> res :=
 
 (* Language.filter_id(instance, id_type) of the three targets: strop(default_filter_id_for_target(instance), id_type) *)
 Definition filter_id (l : lang) (i : inst) (id_type : str) : res := strop_lang l id_type (default_filter_id i).
+
+(* the affix-override configurations (Gen_Strop.cfgs_aff), for the model correspondence of the illegal-affix sweep *)
+Definition cfg_aff (k : nat) (l : lang) : strop_cfg :=
+  match nth_error cfgs_aff k with Some t => pick l t | None => cfg_of l end.
+Definition strop_aff (k : nat) (l : lang) : str -> str -> res := strop py_uni py_isspace (cfg_aff k l).
